@@ -1779,6 +1779,16 @@ func c05EmptyStream() {
 	if !ok {
 		return
 	}
+	if vchoose("resumeByInvoke", 2) == 1 {
+		// the checkpoint of a streaming run resumed by Invoke: the pending stream arrives as one value (no chunk: the
+		// zero value); the run completes, with the content that was pending
+		out, e2 := ri.Invoke(ctx, "unused", WithCheckPointID("cp"))
+		a5(e2 == nil, "empty stream: a streaming checkpoint resumed by Invoke completes")
+		if e2 == nil && keep > 0 {
+			a5(out == "one:"+x || out == "one:"+x+"b", "empty stream: the pending content reaches the consumer as one value")
+		}
+		return
+	}
 	out, e2 := call(ri, WithCheckPointID("cp"))
 	a5(e2 == nil, "empty stream: the resumed run completes")
 	if keep == 1 {
